@@ -130,6 +130,11 @@ func (dem *DepthExecutorManager) merge(resp *DepthExecutorResponse) error {
 				v2, ok2 := dem.result[key].(map[string]interface{})
 				if ok1 && ok2 {
 					dem.result[key] = mergeMaps(v2, v1)
+				} else if _, present := dem.result[key]; present && value == nil {
+					// several root steps answer the same key (`node` over several services):
+					// a service which doesn't know the object must not erase another one's answer,
+					// whatever the order of steps
+					continue
 				} else {
 					dem.result[key] = value
 				}
